@@ -60,10 +60,13 @@ if neu:
     def cnt(d):
         return sum(len(v) if isinstance(v, list) else 1 for k, v in (d or {}).items() if k != "error")
     first_any = sum(1 for _t, m in neu if cnt(m.get("first_run_false_alarms")))
+    r6 = [(t, m) for t, m in neu if "-r6-" in t]
+    r6_first = sum(1 for _t, m in r6 if cnt(m.get("first_run_false_alarms")))
     now_any = sum(1 for _t, m in neu if cnt(m.get("false_alarms_now")))
     na_any = sum(1 for _t, m in neu if m.get("rules_not_applied_now"))
-    out += ["", "## Behaviour-preserving refactorings (round 5, `seeded/_neutral/`)", "",
+    out += ["", "## Behaviour-preserving refactorings (rounds 5 and 6, `seeded/_neutral/`)", "",
             "%d refactorings; alarms on the first run (machinery as it was when they were written): %d of them; with the current machinery: %d raise an alarm, %d make at least one shape-bound rule report `not applied` (no alarm, recorded as an assumed obligation)." % (len(neu), first_any, now_any, na_any), "",
+            "Of these, %d are the round-6 batch (written after the round-5 generalisations, i.e. unseen when the rules were re-stated): %d of them alarmed on their first run." % (len(r6), r6_first), "",
             "| refactoring | confirmed neutral (final tree) | alarms at first run | alarms now | rules not applied now |", "|---|---|---|---|---|"]
     for t, m in neu:
         rv = m.get("reconfirmed_on_final_tree") or {}
